@@ -149,11 +149,27 @@ def sub_req(case):
                     tl = [(recips[0], min(amt, 2000))] + [(own_addr if len(recips) < 2 else recips[1], 0)]
                     t = w.sweep(tl, min_confirms=req['min_confirms'], fee=fee)
                     requested = [tl[0]]
-                elif method in ('inputs_first', 'inputs_all'):
+                elif method in EXPLICIT:
                     sel = sorted(ledger.items())
-                    sel = sel[:1] if method == 'inputs_first' else sel
-                    ia = [(txid, n) for (txid, n), _ in sel]
+                    if method.startswith('inputs_first'):
+                        sel = sel[:1]
+                    elif method.startswith('inputs_second'):
+                        sel = sel[1:2]       # funded at output index 1
+                    if method.endswith('_obj'):
+                        # Input objects, as select_inputs() hands them out, instead of (txid, n) tuples
+                        objs = w.select_inputs(funds, min_confirms=0)
+                        want = [op for op, _ in sel]
+                        ia = [o for o in objs if (o.prev_txid.hex(), o.output_n_int) in want]
+                        if len(ia) != len(want):
+                            raise WalletError('select_inputs did not return the funded outputs')
+                    else:
+                        ia = [(txid, n) for (txid, n), _ in sel]
                     t = w.send(outputs, input_arr=ia, broadcast=False, **kw)
+                    got = sorted((i.prev_txid.hex(), i.output_n_int) for i in t.inputs)
+                    if got != sorted(op for op, _ in sel):
+                        devs.append({'sig': 'inputs|explicit_input_list_not_spent_as_given|%s' % (
+                            'objects' if method.endswith('_obj') else 'tuples'),
+                            'detail': {'requested': sorted(op for op, _ in sel), 'spent': got}})
                 elif method == 'rbf_bump':
                     t = w.send(outputs, broadcast=False, replace_by_fee=True, **kw)
                     bump = req.get('bump', 'default')
@@ -208,7 +224,7 @@ def _judge(t, case, ledger, requested, own, net, explicit_fee, fee_req, method):
         in_sum += u['value']
         if int(i.value) != u['value']:
             dev('inputs|value_differs_from_ledger|%s' % tagm, outpoint=op, lib=i.value, ledger=u['value'])
-        if method not in ('inputs_first', 'inputs_all') and u['conf'] < case['req']['min_confirms']:
+        if method not in EXPLICIT and u['conf'] < case['req']['min_confirms']:
             dev('inputs|below_min_confirms|%s' % tagm, outpoint=op, conf=u['conf'])
     # ---- outputs: integers >= 0
     out_sum = 0
@@ -273,7 +289,7 @@ def _judge(t, case, ledger, requested, own, net, explicit_fee, fee_req, method):
         rate = fee * 1000.0 / vsize
         lo = 0.85 * net['fee_min']
         hi = 1.15 * net['fee_max'] + (net['dust_amount'] + 0.05 * net['fee_max']) * 1000.0 / vsize
-        surplus_is_fee = (method in ('inputs_first', 'inputs_all') and case['req']['fee'] is None and not rest and
+        surplus_is_fee = (method in EXPLICIT and case['req']['fee'] is None and not rest and
                           requested is not None and fee == in_sum - sum(v for _, v in requested))
         if rate < lo or rate > hi:
             if surplus_is_fee:
@@ -323,6 +339,7 @@ def _spk_of(address):
 
 SUBS = {'req': sub_req}
 
+EXPLICIT = ('inputs_first', 'inputs_all', 'inputs_second', 'inputs_first_obj', 'inputs_second_obj', 'inputs_all_obj')
 DEFAULT = {'method': 'send', 'amount': 2000, 'fee': None, 'nchange': 1, 'recips': 'ext', 'min_confirms': 1,
            'max_utxos': None}
 DIMS = {
@@ -332,7 +349,8 @@ DIMS = {
     'recips': ['own', 'ext+ext2', 'ext+own', 'ext+ext'],
     'min_confirms': [0, 2],
     'max_utxos': [1, 2],
-    'method': ['create', 'send_broadcast', 'sweep', 'sweep_list', 'inputs_first', 'inputs_all', 'rbf_bump'],
+    'method': ['create', 'send_broadcast', 'sweep', 'sweep_list', 'inputs_first', 'inputs_all', 'inputs_second',
+               'inputs_first_obj', 'inputs_second_obj', 'inputs_all_obj', 'rbf_bump'],
 }
 RND_MENU = [{'randint': v, 'dirichlet': d, 'shuffle': s}
             for v in (1, 2, 3, 4, 5) for d in ('uniform', 'first', 'last', 'near') for s in ('identity',)] + \
